@@ -60,6 +60,23 @@ ROWS = [
      r"api\.all_method_settings\.get\((?P<m>.+)\.meta\.address\.proto\)\.auto_populated_fields$", True,
      r"{m}.server_streaming", False,
      "API.enforce_valid_method_settings rejects auto_populated_fields on server-streaming methods"),
+    # the same four rows for the subscript spelling of the lookup (`key in settings` + `settings[key]`)
+    ("K-autopop-any",
+     r"api\.all_method_settings\[(?P<m>.+)\.meta\.address\.proto\]\.auto_populated_fields$", True,
+     r"api.all_method_settings.values()|map(attribute='auto_populated_fields', default=[])|list()", True,
+     "a settings entry exists for the method, so the list over all_method_settings.values() is non-empty"),
+    ("K-autopop-notnone",
+     r"api\.all_method_settings\[(?P<m>.+)\.meta\.address\.proto\]\.auto_populated_fields$", True,
+     r"{m}.meta.address.proto in api.all_method_settings", True,
+     "the entry of an absent key cannot be a non-empty list"),
+    ("K-autopop-unary-c",
+     r"api\.all_method_settings\[(?P<m>.+)\.meta\.address\.proto\]\.auto_populated_fields$", True,
+     r"{m}.client_streaming", False,
+     "API.enforce_valid_method_settings rejects auto_populated_fields on client-streaming methods"),
+    ("K-autopop-unary-s",
+     r"api\.all_method_settings\[(?P<m>.+)\.meta\.address\.proto\]\.auto_populated_fields$", True,
+     r"{m}.server_streaming", False,
+     "API.enforce_valid_method_settings rejects auto_populated_fields on server-streaming methods"),
     # -- flattened fields ------------------------------------------------------
     ("K-map-samepkg",
      r"ELEM\((?P<m>.+)\.flattened_fields\.values\(\)\)\.map$", True,
